@@ -92,7 +92,7 @@ Definition sp_step (c : cfg) (s : sp_state) (e : event) (out : list frame) : sp_
       (mkSp (filter (fun x => negb (x =? m)) (sp_hunted s)) (sp_hist s) (sp_closed s) (sp_loops s), common)
   | Close => (mkSp (sp_hunted s) (sp_hist s) true (sp_loops s), common)
   | SetOffer m o => (mkSp (sp_hunted s) ((m, o) :: sp_hist s) (sp_closed s) (sp_loops s), common)
-  | Wake i _ =>
+  | Wake i =>
       match nth_error (sp_loops s) i with
       | None => (s, common ++ match out with [] => [] | _ => [VOther] end)
       | Some (m, true) =>
